@@ -239,6 +239,13 @@ def make_inputs(r, tier):
                 if tier == "quick" and d > 33 and ci > 1:
                     continue
                 cases.append(("valid-deep:%d" % d, L, cfg, text.encode()))
+    # repaired defects (side remarks of the round-4 seeding agents, reproduced): do-while scan of newline_case() past the start of the list; an
+    # include_category_N that is no regular expression
+    for L in ("C", "CPP"):
+        cases.append(("regress-case-scan", L, "nl_before_case=true\n", b"switch (x) case 1: foo();\n"))
+        cases.append(("regress-case-scan", L, "nl_before_case=true\n", b"#define F(x) switch (x) case 1: foo()\n"))
+        cases.append(("regress-category-regex", L, "mod_sort_include=true\ninclude_category_0=\"(\"\n", b"#include \"b.h\"\n#include \"a.h\"\n"))
+        cases.append(("regress-category-regex", L, "mod_sort_include=true\ninclude_category_1=\"[a-\"\ninclude_category_2=\"*\"\n", b"#include \"b.h\"\n#include <a.h>\n"))
     from .. import cprogs
     for i in range(6 if tier == "quick" else 120):
         cpp = i % 2 == 1
